@@ -4,6 +4,8 @@ import KdVerif.Proofs.ContainerV2
 import KdVerif.Proofs.Dict
 import KdVerif.Proofs.EndToEnd
 import KdVerif.Proofs.PyIRRdKd
+import KdVerif.Proofs.PyIRCn
+import KdVerif.Gen.PyIRCn
 /-
   C02 — a version-2 dump yields exactly its records, in order, and its thread map.
 
@@ -317,5 +319,98 @@ theorem parse_is_interpreted_source (plist : Bytes → Option PView) (prior : PS
 example : ((PyIRRd.parseVia Gen.PyIRRd.prog EndToEnd.noPlist fromKdBuf ⟨Tables.empty, {}⟩ (encodeV2 exFile)).events.length,
            (PyIRRd.parseVia Gen.PyIRRd.prog EndToEnd.noPlist fromKdBuf ⟨Tables.empty, {}⟩ (encodeV2 exFile)).err) =
           (exFile.recs.length, none) := by decide +kernel
+
+/-! ### translation tie of the construct DECLARATIONS (`kd_threadmap`, `kd_header_v2`; `Model/PyIRCn`)
+
+The reader tie above keeps `kd_header_v2.parse_stream(reader)` as the primitive `headerV2`.  What `kd_header_v2` IS — the
+module-level `Struct(…)` expression — is translated too (`tools/gen_pyir_cn.py` → `Gen/PyIRCn`) and run by `Con.parse`
+over the same reader monad and the same combinators of `Model/Construct` (one combinator per construct class). -/
+
+/-- **The translated declarations are the ones the lemmas were proved for** (`Spec/PyIRCnExpected`, quoting the Python):
+    all five construct declarations of kd_buf_parser.py and `BplistAdapter._decode`; the translator met nothing outside
+    the subset. -/
+theorem decl_source_is_expected_ir : Gen.PyIRCn.module = PyIRCn.Expected.module ∧ Gen.PyIRCn.notes = [] := by decide
+
+/-- **`kd_threadmap`, interpreted, is `threadEntry`** — for EVERY reader state: the declaration the source binds to
+    `kd_threadmap`, run by `Con.parse` (whatever `plistlib.loads` is, whatever the fuel policy, in any context) and read
+    as (tid, pid, process), gives the same entry or the same exception and leaves the same reader (position and read
+    counters) as the hand model. -/
+theorem kd_threadmap_decl_eq_model (env : PyIRCn.Env) (ctx : List (String × PyIRCn.CVal)) (r : Reader) :
+    PyIRCn.project PyIRCn.CVal.toThreadEntry ((Gen.PyIRCn.module.decl "kd_threadmap").parse env ctx) r =
+      threadEntry r := by
+  rw [decl_source_is_expected_ir.1, PyIRCn.decl_kd_threadmap, PyIRCn.project_kd_threadmap]
+
+/-- the parsed value carries nothing else: it IS the hand model's entry as a `Container` of three named fields. -/
+theorem kd_threadmap_decl_value (env : PyIRCn.Env) (ctx : List (String × PyIRCn.CVal)) :
+    (Gen.PyIRCn.module.decl "kd_threadmap").parse env ctx = PyIRCn.mapRM PyIRCn.ThreadEntry.toCVal threadEntry := by
+  rw [decl_source_is_expected_ir.1, PyIRCn.decl_kd_threadmap, PyIRCn.parse_kd_threadmap]
+
+/-- **`kd_header_v2`, interpreted, is `headerV2`** — for EVERY reader state: the declaration bound to `kd_header_v2`
+    (with `kd_threadmap` resolved to the declaration above), run by `Con.parse` with the fuel `headerV2` gives its greedy
+    range (`restFuel`: unread bytes + 1) and read as (number_of_treads, is_64bit, tick_frequency, threadmap, len(_pad)),
+    gives the same header or the same exception and the same reader: the three paddings of 8 / 4 / 0x100 bytes as ONE
+    read each, the array of `number_of_treads` entries, the greedy zero padding INCLUDING its rewind behind the last
+    zero byte (the K1 behaviour lives in this declaration). -/
+theorem kd_header_v2_decl_eq_model (plist : Bytes → Option PView) (ctx : List (String × PyIRCn.CVal)) (r : Reader) :
+    PyIRCn.project PyIRCn.CVal.toHeaderV2
+      ((Gen.PyIRCn.module.decl "kd_header_v2").parse ⟨plist, fun r => r.rest.length + 1⟩ ctx) r = headerV2 r := by
+  rw [decl_source_is_expected_ir.1, PyIRCn.decl_kd_header_v2, PyIRCn.project_kd_header_v2]
+
+/-- **`parse_v2` rests on the declaration**: the hand model `parseV2` (= the interpreted `parse_v2`, by
+    `parse_v2_ir_eq_model`) with its primitive `headerV2` replaced by the interpreted `kd_header_v2`. -/
+theorem parse_v2_rests_on_declarations {ε : Type} (dec : Bytes → Except PyErr ε) (plist : Bytes → Option PView)
+    (prior : Tables) (r : Reader) :
+    parseV2 dec prior r =
+      match PyIRCn.project PyIRCn.CVal.toHeaderV2
+          ((Gen.PyIRCn.module.decl "kd_header_v2").parse ⟨plist, fun r => r.rest.length + 1⟩ []) r with
+      | (.error e, r') => ⟨[], some e, prior, r'⟩
+      | (.ok h, r') =>
+        let q := recordLoop dec (r'.rest.length / 64 + 2) r'
+        ⟨q.1, q.2.1, setThreadMap prior h.threadmap, q.2.2⟩ := by
+  rw [kd_header_v2_decl_eq_model]; rfl
+
+/-- 32 bytes of a thread entry: tid, pid, a 20-byte name field -/
+def exEntry (tid pid : Nat) (field : Bytes) : Bytes := [tid, 0, 0, 0, 0, 0, 0, 0] ++ [pid, 0, 0, 0] ++ field
+
+/-- a version-2 header: two threads, three zero bytes of padding, then a non-zero byte -/
+def exDeclHeader : Bytes :=
+  [2, 0, 0, 0] ++ List.replicate 12 0xee ++ [1, 0, 0, 0] ++ [24, 0, 0, 0, 0, 0, 0, 0] ++ List.replicate 0x100 0xee ++
+  exEntry 5 9 ([0x61, 0x62, 0] ++ List.replicate 17 0x7a) ++ exEntry 6 9 ([0xc3, 0xa9, 0] ++ List.replicate 17 0) ++
+  [0, 0, 0] ++ [7, 0]
+
+/-- non-vacuity: the generated `kd_header_v2`, interpreted, on concrete bytes — both entries, the three padding zeros
+    consumed, the reader left ON the non-zero byte (position 351) after 16 read calls (the last one the failing
+    `Const` element that the range rewinds) -/
+example :
+    (match PyIRCn.project PyIRCn.CVal.toHeaderV2
+        ((Gen.PyIRCn.module.decl "kd_header_v2").parse ⟨EndToEnd.noPlist, fun r => r.rest.length + 1⟩ [])
+        (Reader.ofBytes exDeclHeader) with
+     | (.ok h, _) => some (h.count, h.is64, h.tick, h.threadmap)
+     | (.error _, _) => none) =
+    some (2, 1, 24, [⟨5, 9, [0x61, 0x62]⟩, ⟨6, 9, [0xc3, 0xa9]⟩]) := by decide +kernel
+
+example :
+    (match PyIRCn.project PyIRCn.CVal.toHeaderV2
+        ((Gen.PyIRCn.module.decl "kd_header_v2").parse ⟨EndToEnd.noPlist, fun r => r.rest.length + 1⟩ [])
+        (Reader.ofBytes exDeclHeader) with
+     | (.ok h, r) => some (h.pad, r.pos, r.calls, r.got)
+     | (.error _, _) => none) = some (3, 351, 16, 352) := by decide +kernel
+
+/-- non-vacuity: a name field without NUL is the StreamError of `NullTerminated`, after the three reads of the entry -/
+example :
+    (match PyIRCn.project PyIRCn.CVal.toThreadEntry ((Gen.PyIRCn.module.decl "kd_threadmap").parse ⟨EndToEnd.noPlist, fun _ => 0⟩ [])
+        (Reader.ofBytes (exEntry 5 9 (List.replicate 20 0x41) ++ [1, 2, 3])) with
+     | (x, r) => (PyIRCn.outcome x, r.pos, r.calls)) = ((none, some .streamError), 32, 3) := by decide +kernel
+
+/-- non-vacuity: a name that is not UTF-8 (a lone 0xff) is the model's error for StringError -/
+example :
+    (match PyIRCn.project PyIRCn.CVal.toThreadEntry ((Gen.PyIRCn.module.decl "kd_threadmap").parse ⟨EndToEnd.noPlist, fun _ => 0⟩ [])
+        (Reader.ofBytes (exEntry 5 9 ([0xff, 0] ++ List.replicate 18 0))) with
+     | (x, r) => (PyIRCn.outcome x, r.pos, r.calls)) = ((none, some .streamError), 32, 3) := by decide +kernel
+
+/-- … and a well-formed entry is read -/
+example :
+    (PyIRCn.project PyIRCn.CVal.toThreadEntry ((Gen.PyIRCn.module.decl "kd_threadmap").parse ⟨EndToEnd.noPlist, fun _ => 0⟩ [])
+        (Reader.ofBytes (exEntry 5 9 ([0x61, 0] ++ List.replicate 18 0xff)))).1.toOption = some ⟨5, 9, [0x61]⟩ := by decide +kernel
 
 end KdVerif.C02
